@@ -20,6 +20,8 @@ class Verifier(Engine):
         c = self.c.funcs.get(name)
         if fn is None: raise Unsupported('function %s not found in /repo (contract-unbound)' % name)
         self.cur = name; self.top_name = fn.name
+        import vals as _v
+        _v._cnt[0] = 0
         st = State()
         args = []
         for i, p in enumerate(fn.params):
@@ -193,38 +195,65 @@ class Verifier(Engine):
             return time.time() - t0
         import multiprocessing as mp
         _WORK = (self, timeout_ms, seed, race)
+        # group obligations by identical path condition
+        groups = {}
+        for i, o in enumerate(self.obls):
+            groups.setdefault(tuple(f.get_id() for f in o.pc), []).append(i)
+        work = []
+        for g in groups.values():
+            for k in range(0, len(g), 12): work.append(g[k:k + 12])
+        work.sort(key=lambda g: -len(g))
         ctx = mp.get_context('fork')
-        with ctx.Pool(min(jobs, n)) as pool:
-            for i, res, tm, be, model in pool.imap_unordered(_solve_one, range(n), chunksize=4):
-                o = self.obls[i]; o.result, o.time, o.backend, o.model = res, tm, be, model
+        with ctx.Pool(min(jobs, len(work))) as pool:
+            for res in pool.imap_unordered(_solve_group, work, chunksize=1):
+                for i, r, tm, be, model in res:
+                    o = self.obls[i]; o.result, o.time, o.backend, o.model = r, tm, be, model
         return time.time() - t0
 
     def solve(self, o, timeout_ms, seed, race=True):
         t = time.time()
+        if o.expect != 'unsat':
+            res, be, model = self.query(o, [o.goal], min(timeout_ms, 2000), seed, False)
+        else:
+            # first the goal as a whole with a short timeout; if undecided, skolemise and split it into pieces
+            res, be, model = self.query(o, [o.goal], min(timeout_ms, 1500), seed, False)
+            if res == 'unknown':
+                pieces = split_goal(o.goal)
+                if len(pieces) > 1:
+                    allres = []
+                    for g in pieces:
+                        r2, be2, m2 = self.query(o, [g], timeout_ms, seed, race)
+                        allres.append(r2)
+                        if r2 == 'sat': res, model = 'sat', m2; break
+                        if r2 != 'unsat': break
+                    if all(r == 'unsat' for r in allres) and len(allres) == len(pieces): res = 'unsat'
+                    elif 'sat' in allres: res = 'sat'
+                    else: res = 'unknown'
+                    be = be + '+split(%d)' % len(pieces)
+                else:
+                    res, be, model = self.query(o, [o.goal], timeout_ms, seed, race)
+        o.result = res; o.backend = be; o.model = model
+        o.time = time.time() - t
+        return res
+
+    def query(self, o, goals, timeout_ms, seed, race):
         s = z3.Solver()
-        s.set('timeout', timeout_ms if o.expect == 'unsat' else min(timeout_ms, 3000))
+        s.set('timeout', timeout_ms)
         if seed: s.set('random_seed', seed % 1000)
         for f in o.pc:
             if o.kind == 'smoke' and self.has_quant(f): continue
             s.add(f)
-        s.add(Not(o.goal))
+        s.add(Not(And(*goals)) if len(goals) > 1 else Not(goals[0]))
         r = s.check()
-        o.backend = 'z3-5.1.0(api)'
-        res = str(r)
+        be = 'z3-5.1.0(api)'
+        res = str(r); model = None
         if r == z3.sat and o.expect == 'unsat':
-            try:
-                o.model = self.model_summary(s.model(), o)
-            except Exception:
-                o.model = None
+            try: model = self.model_summary(s.model(), o)
+            except Exception: model = None
         if r == z3.unknown and race:
-            smt = s.to_smt2()
-            alt = race_solvers(smt, timeout_ms)
-            if alt is not None:
-                res, o.backend = alt
-        o.result = res
-        o.time = time.time() - t
-        return res
-
+            alt = race_solvers(s.to_smt2(), timeout_ms)
+            if alt is not None: res, be = alt
+        return res, be, model
 
     def model_summary(self, m, o):
         """plain-data summary of a counterexample model (values of the symbolic inputs)"""
@@ -238,6 +267,28 @@ class Verifier(Engine):
 
 
 _WORK = None
+_skc = [0]
+
+
+def split_goal(g):
+    """skolemise universal quantifiers and split conjunctions of a goal into separately provable pieces"""
+    if z3.is_quantifier(g) and g.is_forall():
+        vs = []
+        for i in range(g.num_vars()):
+            _skc[0] += 1
+            vs.append(z3.Const('sk!%s!%d' % (g.var_name(i), _skc[0]), g.var_sort(i)))
+        body = z3.substitute_vars(g.body(), *reversed(vs))
+        return split_goal(body)
+    if z3.is_and(g):
+        out = []
+        for c in g.children(): out += split_goal(c)
+        return out
+    if z3.is_implies(g):
+        a, b = g.arg(0), g.arg(1)
+        ps = split_goal(b)
+        if len(ps) == 1 and ps[0].eq(b): return [g]
+        return [z3.Implies(a, p) for p in ps]
+    return [g]
 
 
 def _solve_one(i):
@@ -245,6 +296,30 @@ def _solve_one(i):
     o = v.obls[i]
     v.solve(o, timeout_ms, seed, race)
     return i, o.result, o.time, o.backend, o.model
+
+
+def _solve_group(idxs):
+    """obligations sharing one path condition: one incremental solver, fresh-solver fallback when undecided"""
+    v, timeout_ms, seed, race = _WORK
+    out = []
+    obs = [v.obls[i] for i in idxs]
+    inc = None
+    if len(obs) > 2:
+        inc = z3.Solver(); inc.set('timeout', 1000)
+        for f in obs[0].pc: inc.add(f)
+    for i, o in zip(idxs, obs):
+        done = False
+        if inc is not None and o.expect == 'unsat' and o.kind != 'smoke':
+            t = time.time()
+            inc.push(); inc.add(Not(o.goal))
+            r = inc.check()
+            inc.pop()
+            if r == z3.unsat:
+                o.result = 'unsat'; o.backend = 'z3-5.1.0(api,incremental)'; o.time = time.time() - t; o.model = None; done = True
+        if not done:
+            v.solve(o, timeout_ms, seed, race)
+        out.append((i, o.result, o.time, o.backend, o.model))
+    return out
 
 
 def race_solvers(smt, timeout_ms):
